@@ -6,13 +6,21 @@
 //
 //	req <payload>
 //	    => ok <filters> <fields> <challenge> | err:invalid | err:nofields | err:toomany | panic:<text>
-//	reply <cliphint> <hdr7> <game1> <game2> <challenge> <filter> <rawfields> <options> <servers>
-//	    => <sentpayload> <clientip> <clientport> <stored> <reply|closed>
+//	reply <cliphint> <hdr7> <game1> <game2> <challenge> <filter> <rawfields> <options> <servers> [<intent>]
+//	    => <sentpayload> <clientip> <clientport> <now> <liveness> <stored> <reply|closed>
 //	replyraw <cliphint> <payload> <servers>
-//	    => <clientip> <clientport> <stored> <reply|closed>
+//	    => <clientip> <clientport> <now> <liveness> <stored> <reply|closed>
 //
-// <servers>/<stored>: records a.b.c.d:port:queryport:status:v1:…:vn, one v per field of the Info
+// <servers>/<stored>: records a.b.c.d:port:queryport:status[@ref]:v1:…:vn, one v per field of the Info
 // schema that params.Marshal iterates over (ints decimal, bools 0/1, strings hex).
+// @ref is the record's RefreshedAt.  In <servers> (input) it is RELATIVE to the handler's clock: "@z" = the zero
+// time (never refreshed), "@k" = k ticks of 256ns BEFORE the clock (negative: in the future), absent = refreshed
+// right now.  In <stored> (output, read back through the repository) it is ABSOLUTE and always present:
+// "@z" or "@<UnixNano>".  <now> = the handler's clock (UnixNano) and <liveness> = its HandlerOpts.Liveness (ns)
+// at the time of the request.
+// <intent> (optional, the generator's declared reading of <filter>, as in C03): "-" none, "bad" = claimed
+// unparsable, "q:<clause>,…" with <clause> = <fieldhex>.<eq|ne|lt|gt>.<i<dec>|s<hex>|f<hex>>; the harness ignores it,
+// the Lean driver checks it against the filter bytes and evaluates the specification on it.
 // <reply> is the raw (still encrypted) byte stream read from the client side of the connection;
 // the Lean driver decrypts it with the SDK reference decoder.  <stored> is the registry content
 // read back through the repository right before the request (JSON storage coerces invalid UTF-8).
@@ -29,6 +37,7 @@ import (
 	"reflect"
 	"strconv"
 	"strings"
+	"syscall"
 	"time"
 
 	"github.com/sergeii/swat4master/internal/core/entities/addr"
@@ -101,6 +110,7 @@ type record struct {
 	port      int
 	queryPort int
 	status    int
+	ref       string   // RefreshedAt: "" = now, "z" = zero time, else an integer (input: ticks of 256ns before now; output: UnixNano)
 	vals      []string // one per schema field; ints decimal, bools 0/1, strings hex
 }
 
@@ -108,6 +118,9 @@ func (r record) String() string {
 	parts := []string{
 		fmt.Sprintf("%d.%d.%d.%d", r.ip[0], r.ip[1], r.ip[2], r.ip[3]),
 		strconv.Itoa(r.port), strconv.Itoa(r.queryPort), strconv.Itoa(r.status),
+	}
+	if r.ref != "" {
+		parts[3] += "@" + r.ref
 	}
 	return strings.Join(append(parts, r.vals...), ":")
 }
@@ -146,8 +159,17 @@ func parseRecords(tok string) ([]record, error) {
 		if r.queryPort, err = strconv.Atoi(parts[2]); err != nil {
 			return nil, err
 		}
-		if r.status, err = strconv.Atoi(parts[3]); err != nil {
+		st, ref, hasRef := strings.Cut(parts[3], "@")
+		if r.status, err = strconv.Atoi(st); err != nil {
 			return nil, err
+		}
+		if hasRef {
+			if ref != "z" {
+				if _, err := strconv.ParseInt(ref, 10, 64); err != nil {
+					return nil, err
+				}
+			}
+			r.ref = ref
 		}
 		r.vals = parts[4:]
 		out = append(out, r)
@@ -179,18 +201,33 @@ func (r record) toServer(now time.Time) (server.Server, error) {
 			return server.Blank, fmt.Errorf("schema field %s has a kind the harness cannot plant", f.goName)
 		}
 	}
+	refreshed := now
+	switch r.ref {
+	case "":
+	case "z":
+		refreshed = time.Time{}
+	default:
+		k, err := strconv.ParseInt(r.ref, 10, 64)
+		if err != nil {
+			return server.Blank, err
+		}
+		refreshed = now.Add(-time.Duration(k * 256))
+	}
 	return server.Server{
 		Addr:            addr.Addr{IP: r.ip, Port: r.port},
 		QueryPort:       r.queryPort,
 		DiscoveryStatus: ds.DiscoveryStatus(r.status),
 		Info:            info,
-		RefreshedAt:     now,
+		RefreshedAt:     refreshed,
 	}, nil
 }
 
 func fromServer(s server.Server) record {
 	sch := infoSchema()
-	r := record{ip: s.Addr.IP, port: s.Addr.Port, queryPort: s.QueryPort, status: int(s.DiscoveryStatus)}
+	r := record{ip: s.Addr.IP, port: s.Addr.Port, queryPort: s.QueryPort, status: int(s.DiscoveryStatus), ref: "z"}
+	if !s.RefreshedAt.IsZero() {
+		r.ref = strconv.FormatInt(s.RefreshedAt.UnixNano(), 10)
+	}
 	rv := reflect.ValueOf(s.Info)
 	for _, f := range sch {
 		fv := rv.Field(f.index)
@@ -220,7 +257,7 @@ func exec(op string, args []string) []string {
 		switch {
 		case op == "req" && len(args) == 1:
 			out = execReq(core.MustUnHex(args[0]))
-		case op == "reply" && len(args) == 9:
+		case op == "reply" && (len(args) == 9 || len(args) == 10): // args[9], when present, is the declared reading of the filter (for the driver)
 			payload := encodeReq(core.MustUnHex(args[1]), core.MustUnHex(args[2]), core.MustUnHex(args[3]),
 				core.MustUnHex(args[4]), core.MustUnHex(args[5]), unHexList(args[6]), core.MustUnHex(args[7]))
 			out = append([]string{core.Hex(payload)}, execReply(args[0], payload, args[8])...)
@@ -412,14 +449,18 @@ func execReply(clipHint string, payload []byte, serversTok string) []string {
 	case <-time.After(20 * time.Second):
 		panicked = "handler-hung"
 	}
-	head := []string{local.IP.To4().String(), strconv.Itoa(local.Port), recordsToken(stored)}
+	head := []string{local.IP.To4().String(), strconv.Itoa(local.Port),
+		strconv.FormatInt(now.UnixNano(), 10), strconv.FormatInt(w.Opts.Liveness.Nanoseconds(), 10), recordsToken(stored)}
 	if v6peer {
 		head[0] = "0.0.0.0"
 	}
 	switch {
 	case panicked != "":
 		return append(head, panicked)
-	case rerr != nil:
+	case rerr != nil && !errors.Is(rerr, syscall.ECONNRESET):
+		// (a reset ends the stream like a close: the handler closes with unread bytes in its receive queue whenever the
+		// client sent more than the 2048 bytes it reads, and the kernel then answers with RST instead of FIN; what was
+		// written before the close has been delivered and read)
 		return append(head, "read-error:"+strings.ReplaceAll(rerr.Error(), " ", "_"))
 	case len(reply) == 0:
 		return append(head, "closed")
@@ -545,8 +586,29 @@ func randRecord(rng *rand.Rand, used map[string]bool) record {
 	default:
 		r.queryPort = 1 + rng.Intn(65535)
 	}
-	// always Master (so that the record is listed), any other bits
+	// mostly Master (so that the record is listed) with any other bits; one in seven without the master bit
 	r.status = int(ds.Master) | (rng.Intn(512) &^ int(ds.Master))
+	if rng.Intn(7) == 0 {
+		r.status &^= int(ds.Master)
+	}
+	// mostly refreshed right now; else around the edge of the liveness window (the bound now-liveness is inclusive),
+	// long stale, never refreshed (zero time: not in the refreshed index at all), or ahead of the clock
+	switch rng.Intn(20) {
+	case 0:
+		r.ref = strconv.FormatInt(livenessTicks, 10) // exactly at the bound: listed
+	case 1:
+		r.ref = strconv.FormatInt(livenessTicks+1, 10) // one tick too old
+	case 2:
+		r.ref = strconv.FormatInt(livenessTicks-1, 10)
+	case 3:
+		r.ref = strconv.FormatInt(livenessTicks+1+rng.Int63n(1<<34), 10)
+	case 4:
+		r.ref = "z"
+	case 5:
+		r.ref = strconv.FormatInt(rng.Int63n(livenessTicks), 10)
+	case 6:
+		r.ref = strconv.FormatInt(-1-rng.Int63n(1<<20), 10)
+	}
 	for _, f := range schemaCache {
 		switch f.kind {
 		case kindInt:
@@ -754,11 +816,70 @@ func gen(rng *rand.Rand, tier core.Tier, emit core.Emit) {
 		if rng.Intn(10) > 0 && n > 6 {
 			n = 6 // mostly small registries; the long tail comes from the remaining tenth
 		}
+		reg := randRegistry(rng, n)
+		// the filter: empty, well-formed clauses around values the registry stores, malformed, random bytes
+		text, intent := replyFilter(rng, reg)
+		q.filter = []byte(text)
+		// one request in twenty-five is padded to a total length around the handler's 2048-byte read buffer
+		if rng.Intn(25) == 0 {
+			intent = padTo(rng, &q, intent, oversizeTargets[rng.Intn(len(oversizeTargets))])
+		}
 		emit("reply", clipHint(rng), core.Hex(q.hdr7), core.Hex(q.g1), core.Hex(q.g2), core.Hex(q.chal), core.Hex(q.filter),
-			hexList(q.raw), core.Hex(q.opts), recordsToken(randRegistry(rng, n)))
+			hexList(q.raw), core.Hex(q.opts), recordsToken(reg), intent)
+	}
+	// one large registry per run: exactly 300 servers pass the repository's selection (master, live) next to a few
+	// that do not, and the filter keeps most of them (a round number of servers, should anything fetch them in batches)
+	{
+		q := randReqParts(rng, true)
+		q.raw = [][]byte{[]byte("hostname"), []byte("numplayers"), []byte("hostport")}
+		used := map[string]bool{}
+		var reg []record
+		for len(reg) < 306 {
+			r := randRecord(rng, used)
+			for j, f := range schemaCache {
+				if f.kind == kindString && len(r.vals[j]) > 64 {
+					r.vals[j] = core.Hex([]byte(pick(rng, asciiWords)))
+				}
+			}
+			r.status |= int(ds.Master)
+			r.ref = ""
+			switch len(reg) {
+			case 7, 150:
+				r.status &^= int(ds.Master)
+			case 8, 151:
+				r.ref = "z"
+			case 9, 305:
+				r.ref = strconv.FormatInt(livenessTicks+1, 10)
+			}
+			reg = append(reg, r)
+		}
+		c := intClause("numplayers", ">", "gt", -1)
+		q.filter = []byte(c.text)
+		emit("reply", "127.0.0.1", core.Hex(q.hdr7), core.Hex(q.g1), core.Hex(q.g2), core.Hex(q.chal), core.Hex(q.filter),
+			hexList(q.raw), core.Hex(q.opts), recordsToken(reg), "q:"+c.canon)
 	}
 	for i := 0; i < nRaw; i++ {
 		q := randReqParts(rng, true)
-		emit("replyraw", clipHint(rng), core.Hex(malformed(rng, q)), recordsToken(randRegistry(rng, 3)))
+		reg := randRegistry(rng, 3)
+		if rng.Intn(3) == 0 {
+			text, _ := replyFilter(rng, reg)
+			q.filter = []byte(strings.ReplaceAll(text, "\x00", "?"))
+		}
+		p := malformed(rng, q)
+		switch rng.Intn(12) {
+		case 0: // a well-formed request followed by bytes the declared length does not cover, beyond the read buffer:
+			// the handler reads 2048 bytes, the declared length lies within them, it replies
+			p = q.encode()
+			if len(p) < 2049 {
+				p = append(p, core.RandBytes(rng, []int{2049, 2050, 3000, 4000}[rng.Intn(4)]-len(p))...)
+			}
+		case 1: // the same with the declared length covering everything: beyond what the handler read, no reply
+			p = q.encode()
+			if len(p) < 2049 {
+				p = append(p, core.RandBytes(rng, []int{2049, 2050, 3000, 4000}[rng.Intn(4)]-len(p))...)
+				binary.BigEndian.PutUint16(p[:2], uint16(len(p))) // nolint:gosec
+			}
+		}
+		emit("replyraw", clipHint(rng), core.Hex(p), recordsToken(reg))
 	}
 }
